@@ -56,7 +56,12 @@ func zzCoinId(name string, chain ChainID) string {
 		}
 		return zzDigits(name, zzLen(name+".len", 1, hi))
 	}
-	return common.BytesToAddress(vrt.Bytes(name, 20)).Hex()
+	// a contract address as validators may report it: checksummed, or 0x + 40 hex digits in any letter case
+	// (Validate only asks for a hex address; the hub looks tokens up by the exact string)
+	if vrt.Choose(name+".form", 2) == 0 {
+		return common.BytesToAddress(vrt.Bytes(name, 20)).Hex()
+	}
+	return "0x" + string(vrt.Bytes(name+".raw", 40)) // Validate (IsHexAddress) constrains the characters
 }
 
 // zzSender: an external sender as validators may report it: checksummed with 0x prefix, or 40 raw hex digits.
